@@ -369,7 +369,19 @@ fn perform_inner(call: &Call, prep: &Prepared, face: Face, pol: &Policy, fault: 
             ))
         }
         Call::DirRead { entries, ic } => {
-            let enc = spec::compress(*ic, &spec::encode_dir(entries)).expect("oracle codec");
+            let plain = spec::encode_dir(entries);
+            // a zstd stream may consist of several frames (RFC 8878, 3.1): a quarter of the zstd
+            // directories is stored as two frames (decided by the content, no extra draw)
+            let two_frames = *ic == 4 && plain.len() >= 8 && hash_bytes(1, &plain) % 4 == 0;
+            let enc = if two_frames {
+                ctx.bump("directories_stored_as_two_zstd_frames", 1);
+                let (a, b) = plain.split_at(plain.len() / 2);
+                let mut v = spec::compress(*ic, a).expect("oracle codec");
+                v.extend(spec::compress(*ic, b).expect("oracle codec"));
+                v
+            } else {
+                spec::compress(*ic, &plain).expect("oracle codec")
+            };
             let len = enc.len() as u64;
             let mut img = enc;
             img.extend_from_slice(&[0xAB; 40]);
